@@ -47,7 +47,7 @@ class ImmSeq(SymSeq):
 
         def elem(i, s=s, name=name, elem_cls=elem_cls):
             iz = i.z if isinstance(i, core.SNum) else z3.IntVal(i)
-            o = Obj(elem_cls, f"{name}[{iz}]", pre=True)
+            o = Obj(elem_cls, f"{name}[{iz}]", pre=True, strict=True)
             # `groupby` of the i-th check: None or not, decided by the uninterpreted predicate gb(list, i)
             has = cur().decide(SBool(gb(s.eq, iz)), f"{name}[{iz}].groupby is not None")
             v = SAny(name=f"{name}[{iz}].groupby") if has else None
@@ -116,7 +116,7 @@ SCHEMA_STORED_AS = {"dtype": "_dtype", "coerce": "_coerce", "unique": "_unique"}
 def dtype_ref():
     from pandera.dtypes import DataType
 
-    return T.Ref(DataType, auto_coerce=T.Bool)
+    return T.Ref(DataType, strict=True, auto_coerce=T.Bool)
 
 
 def component_fields(kind="column"):
@@ -139,17 +139,22 @@ def make_component(cls, name, label, kind="column"):
     from pandera.api.checks import Check
     from pandera.api.parsers import Parser
 
-    o = Obj(cls, name, pre=True, fields=component_fields(kind))
+    o = Obj(cls, name, pre=True, fields=component_fields(kind), strict=True)
     o.attrs["name"] = label
     o.attrs0["name"] = label
     _install_lists(o, name, Check, Parser)
+    if kind == "index":
+        # class invariant of Index (proved: ArraySchema._validate_attributes/post.an_index_that_passes_has_no_groupby_check)
+        cs = o.attrs["checks"]
+        j = z3.Int(cur().fresh_name("j"))
+        cur().assume(SBool(z3.ForAll([j], z3.Implies(z3.And(j >= 0, j < cs.n.z), z3.Not(gb(cs.eq, j))))))
     return o
 
 
 def make_multiindex(cls, index_cls, column_cls, name, labels):
     """a pre-existing MultiIndex over levels `labels`, in the state its constructor establishes:
     `indexes` = the Index objects, `columns` = {label: Column(dtype, checks, nullable, unique of the level)}"""
-    o = Obj(cls, name, pre=True, fields=schema_fields())
+    o = Obj(cls, name, pre=True, fields=schema_fields(), strict=True)
     levels = ListObj([make_component(index_cls, f"{name}.indexes[{i}]", lab, "index") for i, lab in enumerate(labels)])
     levels.pre = True
     levels.name = f"{name}.indexes"
@@ -158,8 +163,22 @@ def make_multiindex(cls, index_cls, column_cls, name, labels):
     cols = DictObj()
     cols.pre = True
     cols.name = f"{name}.columns"
-    for lab in labels:
-        cols[lab] = make_component(column_cls, f"{name}.columns[{lab!r}]", lab, "column")
+    dflt = ctor_defaults(column_cls)
+    for lab, lv in zip(labels, levels):
+        # class invariant of MultiIndex (proved: MultiIndex.__init__/post.columns_mirror_levels.*): the column of a level
+        # carries the level's dtype, checks, nullable, unique; every other Column parameter has its default; name == key
+        c = Obj(column_cls, f"{name}.columns[{lab!r}]", pre=True, fields={}, strict=True)
+        vals = {k: (list(v) if isinstance(v, list) else v) for k, v in dflt.items()}
+        vals.update(_dtype=attr(lv, "_dtype"), nullable=attr(lv, "nullable"), unique=attr(lv, "unique"), name=lab)
+        vals.pop("dtype", None)
+        lc = attr(lv, "checks")
+        vals["checks"] = ImmSeq(f"{name}.columns[{lab!r}].checks", lc.n, lc.at, eq=lc.eq, pre=True)
+        vals["parsers"] = ListObj()
+        vals["parsers"].pre = True
+        for k, v in vals.items():
+            c.attrs[k] = v
+            c.attrs0[k] = v
+        cols[lab] = c
     o.attrs["columns"] = cols
     o.attrs0["columns"] = cols
     o.attrs["index"] = None
@@ -177,7 +196,7 @@ def schema_fields():
 def make_schema(cls, column_cls, name, labels, index=None):
     """a pre-existing DataFrameSchema with columns `labels` (in this order); every column attribute and every
     schema-level attribute symbolic; class invariant of DataFrameSchema.__init__: column.name == its key"""
-    o = Obj(cls, name, pre=True, fields=schema_fields())
+    o = Obj(cls, name, pre=True, fields=schema_fields(), strict=True)
     cols = DictObj()
     cols.pre = True
     cols.name = f"{name}.columns"
@@ -198,6 +217,11 @@ def make_schema(cls, column_cls, name, labels, index=None):
 
 def install_engine_dtype(I):
     from pandera.dtypes import DataType
+
+    # pyvc.stdlib_models registers `dict.fromkeys` under the id of a temporary bound-builtin object; that id is reused
+    # by other builtin method objects (e.g. `d.keys`) - drop the entry (dict.fromkeys is not used by the C15 targets)
+    for k in [k for k, v in I.models.items() if getattr(v, "__name__", "") == "_fromkeys"]:
+        del I.models[k]
     from pandera.engines import pandas_engine
 
     def dtype_model(I, cls, x):
@@ -258,6 +282,30 @@ def root_of(o: Obj):
     return o
 
 
+def untouched_copy_attr(x: Obj, y: Obj, n) -> bool:
+    """True when x is a (copy of a ...) lazy deep copy of the pre-existing object y and neither x, nor any copy in
+    between, nor y has materialised / written / deleted attribute n: by the deepcopy model x.n is then a deep copy of
+    y.n at entry, hence equal to it - decided without materialising the attribute (no path fork)."""
+    cur_o = x
+    while cur_o is not y:
+        a = cur_o.attrs
+        if not isinstance(a, LazyCopyAttrs) or not a.deep or dict.__contains__(a, n) or n in a.local_deleted:
+            return False
+        cur_o = a.src
+    return y.pre and n not in y.writes and n not in y.attrs and (n in y.field_types or not y.strict)
+
+
+def attr_equal(x: Obj, y: Obj, n, at_entry=True):
+    """x.n == y.n (y read at its entry value when at_entry)"""
+    if untouched_copy_attr(x, y, n):
+        return True
+    a = attr(x, n)
+    b = attr0(y, n) if (at_entry and y.pre) else attr(y, n)
+    if a is MISSING or b is MISSING:
+        return a is MISSING and b is MISSING
+    return value_equal(a, b, None, at_entry)
+
+
 def value_equal(x, y, names=None, at_entry=False, seen=None):
     """python `==` of two schema values as pandera defines it (attribute-wise on `__dict__`), as a bool / SBool.
 
@@ -282,6 +330,8 @@ def value_equal(x, y, names=None, at_entry=False, seen=None):
                 pass
         conj = []
         for n in ns:
+            if untouched_copy_attr(x, y, n):
+                continue
             a = attr(x, n)
             b = attr0(y, n) if (at_entry and y.pre) else attr(y, n)
             if a is MISSING or b is MISSING:
